@@ -15,6 +15,9 @@
 import TypedpyModel.Lemmas.PyLex
 import TypedpyModel.Lemmas.SchemaToCode
 import TypedpyModel.Lemmas.SchemaEmit
+import TypedpyModel.Lemmas.DefOrder
+import TypedpyModel.Lemmas.TextClean
+import TypedpyModel.Lemmas.CodeExact
 namespace Typedpy.C09
 open Typedpy Typedpy.PyLex
 
@@ -105,30 +108,26 @@ theorem default_site_faithful (pr : Char → Bool) (v : PyVal) :
     simp [StringSite.faithful, repr_safe]
   | _ => exact reprSites_faithful pr "default-repr" _ site (by simpa [defaultSites] using hs)
 
-/-- full statement (false today, residue NUL): every description becomes the docstring it was
-    meant to be -/
+/-- full statement (true since the repair of `unescaped:description-nul`): every description becomes
+    the docstring it was meant to be -/
 def description_statement : Prop := ∀ d : String, pyLexStr (docWrap d) = some (docValue d)
 
-/-- the docstring template with `_docstring_text` escaping is faithful for every description
-    without a NUL character (quotes, `"""`, backslashes, CR, newlines, non-ASCII all included) -/
-theorem description_safe (d : String) (h : cNUL ∉ d.toList) :
+/-- the docstring template with `_docstring_text` escaping is faithful for EVERY description (quotes,
+    `"""`, backslashes, CR, NUL, newlines, non-ASCII all included) -/
+theorem description_safe (d : String) :
     pyLexStr (docWrap d) = some (docValue d) := by
-  simp only [pyLexStr, docWrap, docValue, String.toList_ofList, lexSrc_docWrapL d.toList h,
+  simp only [pyLexStr, docWrap, docValue, String.toList_ofList, lexSrc_docWrapL d.toList,
     Option.map_some]
 
-theorem description_site_faithful (d : String) (h : cNUL ∉ d.toList) :
+theorem description_site_faithful (d : String) :
     (descriptionSite d).faithful = true := by
-  simp [StringSite.faithful, descriptionSite, description_safe d h]
+  simp [StringSite.faithful, descriptionSite, description_safe d]
 
-/-- finding `unescaped:description-nul`: a NUL in the description is pasted into the source as is
-    ("source code string cannot contain null bytes") -/
-theorem unescaped_description_nul :
-    (descriptionSite (String.ofList ['a', cNUL, 'b'])).faithful = false := by decide
-theorem description_statement_false : ¬ description_statement := by
-  intro h
-  have := h (String.ofList ['a', cNUL, 'b'])
-  revert this
-  decide
+/-- repaired finding `unescaped:description-nul`: a NUL in the description is written `\x00` and comes
+    back as NUL -/
+theorem fixed_description_nul :
+    (descriptionSite (String.ofList ['a', cNUL, 'b'])).faithful = true := by decide
+theorem description_statement_holds : description_statement := description_safe
 
 /-- every string-bearing site of every schema (patterns, enum members, `_required`, defaults, at
     any nesting depth) is emitted as a literal that denotes exactly the schema's string -/
@@ -311,57 +310,64 @@ open Typedpy.Emit Typedpy.PyGram
 
 /-- every well-formed expression tree prints to text that lexes to exactly its token sequence
     (any nesting depth, any string literals) … -/
-theorem expr_tokens (X : Ora) (pr : Char → Bool) (e : PyExpr) (h : wf e = true) (rest : List Char)
+theorem expr_tokens (X : Ora) (pr : Char → Bool) (e : PyExpr) (h : wf X e = true) (rest : List Char)
     (hr : DelimHead rest) (d : Nat) (ind : List Nat) :
     lex X ⟨d, ind⟩ .mid (render pr e ++ rest) = prepend (toks e) (lex X ⟨d, ind⟩ .mid rest) :=
   lex_expr X pr e h d ind rest hr
 
 /-- … and that token sequence is an expression of the grammar, in every context -/
-theorem expr_parses (e : PyExpr) (h : wf e = true) (σ : List Frame) (c : Bool) (φ : Phase) (rest : List Tok)
+theorem expr_parses (X : Ora) (e : PyExpr) (h : wf X e = true) (σ : List Frame) (c : Bool) (φ : Phase) (rest : List Tok)
     (hφ : φ ≠ .expr) :
     parse ⟨σ, .operand c false, φ, false⟩ (toks e ++ rest) = parse ⟨σ, .afterOp (endsStr e), φ, false⟩ rest :=
-  parse_expr e h σ c φ rest hφ
+  parse_expr X e h σ c φ rest hφ
 
 /-- the expression `convert_to_field_code` emits for ANY schema whose `$ref` / property names are
     identifiers (property names distinct as keyword arguments and not `__debug__`) and whose enum
     members / defaults are JSON values is well-formed — every keyword combination, any depth -/
-theorem field_code_wf (O : EOra) (hO : OraOk O) (s : Schema) (d : Option PyVal) (h : emitOk s d = true) :
-    wf (schemaExpr O s d) = true :=
-  schemaExpr_wf O hO s d h
+theorem field_code_wf (X : Ora) (O : EOra) (hO : OraOk O) (s : Schema) (d : Option PyVal) (h : emitOk X s d = true) :
+    wf X (schemaExpr O s d) = true :=
+  schemaExpr_wf X O hO s d h
 
 /-- integers are printed as decimal literals of the subset (no leading zeros), every `Nat` -/
 theorem nat_literal (n : Nat) : isNumText (natText n) = true := natText_num n
 
 /-- the tokens of the emitted module -/
 theorem emitted_module_tokens (X : Ora) (O : EOra) (hO : OraOk O) (write : Bool) (defs : List ClassSrc)
-    (main : ClassSrc) (hd : ∀ c ∈ defs, classSrcOk c = true) (hm : classSrcOk main = true) :
+    (main : ClassSrc) (hd : ∀ c ∈ defs, classSrcOk X c = true) (hm : classSrcOk X main = true) :
     lex X lctx0 (.bol 0) (moduleText O write defs main) = .ok (modToks O defs main) :=
-  lex_module X O write defs main (fun c hc => classOk_of_src O hO c (hd c hc)) (classOk_of_src O hO main hm)
+  lex_module X O write defs main (fun c hc => classOk_of_src X O hO c (hd c hc)) (classOk_of_src X O hO main hm)
 
 /-- the full statement: the module emitted for ANY definitions and main schema compiles -/
 def always_compiles_statement : Prop :=
   ∀ (X : Ora) (O : EOra) (write : Bool) (defs : List ClassSrc) (main : ClassSrc),
     OraOk O → recognise X (moduleText O write defs main) = .accept
 
+/-- the emitted text never contains a NUL or a carriage return (the only way in would be a NUL in a
+    description: `repr` escapes both, `_docstring_text` escapes CR) -/
+theorem emitted_module_clean (X : Ora) (O : EOra) (hO : OraOk O) (write : Bool) (defs : List ClassSrc) (main : ClassSrc)
+    (hd : ∀ c ∈ defs, classSrcOk X c = true) (hm : classSrcOk X main = true) :
+    textClean (moduleText O write defs main) = true :=
+  moduleText_clean X O write defs main (fun c hc => classOk_of_src X O hO c (hd c hc)) (classOk_of_src X O hO main hm)
+
 /-- PARTIAL: the emitted module is accepted by the recogniser for ALL definition lists and main
     schemas (any depth, any strings in patterns / enums / defaults / required / descriptions) with
-    the decidable exclusions `classSrcOk` (class, `$ref` and property names are ASCII identifiers
-    that are not keywords — property names also not `__debug__` and distinct as keyword arguments;
-    enum members and defaults are JSON values; no NUL in a description), `textClean` (no NUL / CR
-    character in the text) and `nestOk` (bracket nesting within CPython's 200 levels) -/
+    the decidable exclusions `classSrcOk` (class, `$ref` and property names are identifiers (ASCII letters / digits / `_`, and non-ASCII characters
+    for which the oracle `X` = `str.isidentifier` says so) that are not keywords — property names also not `__debug__` and distinct as keyword arguments;
+    enum members and defaults are JSON values; no NUL in a description) and `nestOk` (bracket
+    nesting within CPython's 200 levels); `OraOk`: `repr(float)` answers with decimal literals -/
 theorem emitted_module_accepted_partial (X : Ora) (O : EOra) (hO : OraOk O) (write : Bool)
     (defs : List ClassSrc) (main : ClassSrc)
-    (hd : ∀ c ∈ defs, classSrcOk c = true) (hm : classSrcOk main = true)
-    (hclean : textClean (moduleText O write defs main) = true)
+    (hd : ∀ c ∈ defs, classSrcOk X c = true) (hm : classSrcOk X main = true)
     (hnest : nestOk X (moduleText O write defs main) = true) :
     recognise X (moduleText O write defs main) = .accept :=
-  recognise_module X O write defs main (fun c hc => classOk_of_src O hO c (hd c hc))
-    (classOk_of_src O hO main hm) hclean hnest
+  recognise_module X O write defs main (fun c hc => classOk_of_src X O hO c (hd c hc))
+    (classOk_of_src X O hO main hm) (emitted_module_clean X O hO write defs main hd hm) hnest
 
 /-- a concrete oracle for the examples: every non-ASCII character printable, every float `1.5` -/
 def exOra : EOra := ⟨fun _ => true, fun _ => ['1', '.', '5']⟩
-theorem exOra_ok : OraOk exOra := fun _ => by
-  show wf (floatExpr ['1', '.', '5']) = true
+theorem exOra_ok : OraOk exOra := fun X _ => by
+  show wf X (.num ['1', '.', '5']) = true
+  simp only [wf]
   decide
 
 def objOf (name : String) : Schema := .obj [(name, .num true none none none false)] [] (some []) true
@@ -379,10 +385,11 @@ theorem counterexample_name_not_identifier :
       = .reject := by decide
 
 set_option maxRecDepth 100000 in
-/-- finding `unescaped:description-nul`, at module level: a NUL in the description is pasted raw -/
-theorem counterexample_description_nul :
+/-- repaired finding `unescaped:description-nul`, at module level: a NUL in the description is escaped
+    and the module is accepted -/
+theorem fixed_description_nul_module :
     recognise Ora.ascii (moduleText exOra false [] ⟨"Foo", some (String.singleton cNUL), objOf "p"⟩)
-      = .reject := by decide
+      = .accept := by decide
 
 theorem always_compiles_statement_false : ¬ always_compiles_statement := fun h =>
   absurd (h Ora.ascii exOra false [] ⟨"Foo", none, objOf "my-prop"⟩ exOra_ok)
@@ -408,10 +415,141 @@ set_option maxRecDepth 100000 in
     positional array, enum with string / negative int / None / bool / nested list, map, combinators,
     list/dict default behind `lambda:` satisfies the side conditions and is accepted -/
 theorem accepted_example :
-    classSrcOk exDef = true ∧ classSrcOk exMain = true ∧
+    classSrcOk Ora.ascii exDef = true ∧ classSrcOk Ora.ascii exMain = true ∧
     textClean (moduleText exOra true [exDef] exMain) = true ∧
     nestOk Ora.ascii (moduleText exOra true [exDef] exMain) = true ∧
     recognise Ora.ascii (moduleText exOra true [exDef] exMain) = .accept := by decide
+
+/-! ## order of the definitions (`exec:forward-ref`) -/
+
+/-- emission in depth-first dependency order (`topoOrder`, the order of the proposed repair): for
+    EVERY definitions table whose references have no cycle, every definition is emitted, and each
+    one after all the definitions it refers to (the class body is evaluated when the class
+    statement runs, so no `$ref` is a NameError) -/
+theorem definitions_defined_before_use (defs : Defs) (hac : Acyclic defs) :
+    definedBeforeUse defs (topoOrder defs).reverse ∧ ∀ n ∈ defs.map (·.1), n ∈ topoOrder defs :=
+  topoOrder_ok defs hac
+
+/-- the dict-order emission has the counterexample (`A` refers to the later `B`); the depth-first
+    order emits `B` first -/
+theorem counterexample_dict_order_forward_ref :
+    refsOrdered [] [("A", .obj [("x", .ref "B")] [] (some ["x"]) true),
+                    ("B", .obj [("y", .num true none none none false)] [] (some ["y"]) true)] = false ∧
+    topoOrder [("A", .obj [("x", .ref "B")] [] (some ["x"]) true),
+               ("B", .obj [("y", .num true none none none false)] [] (some ["y"]) true)] = ["B", "A"] :=
+  dict_order_counterexample
+
+/-! ## exactness: the generated field accepts what the schema admits
+
+  `CodeExact.scalarDoc` is the JSON document of a scalar schema, `jsV` the draft-4 validator model of
+  C08 (`Spec/JsValid.lean`), `deser` / `validate` the Deserializer and constructor models of C06 / C01
+  applied to the generated declaration `schemaToDecl`. -/
+
+open Typedpy.CodeExact Typedpy.Sch in
+/-- on the exact scalar sub-fragment the schema that `structure_to_schema` exports for the generated
+    field is the source schema itself (document level, both spellings of `multipleOf`) -/
+theorem exported_schema_is_source (fx : Bool) (ρ : String → FieldDecl) (s : Schema)
+    (h : exactSchema s = true) : emit fx (schemaToDecl ρ s) = scalarDoc fx s :=
+  emit_scalar fx ρ s h
+
+open Typedpy.CodeExact Typedpy.Sch in
+/-- PARTIAL (one direction, scalars): for EVERY schema of the exact scalar sub-fragment (integer with
+    bounds / positive multiplesOf, number with bounds, `exclusiveMaximum` next to `maximum`, string with
+    lengths and a start-anchored pattern, boolean, non-empty enum of literals) and EVERY document value:
+    if the draft-4 validator admits the value against the source schema, the generated field accepts it
+    (deserialization succeeds and the constructor's validation accepts the result).  `hS`: the
+    validator's regex oracle agrees with `re.match` on start-anchored patterns. -/
+theorem admitted_is_accepted_partial (O : Oracles) (R : String → PyVal → Bool) (S : String → String → Bool)
+    (hS : ∀ p t, startAnchored p = true → S p t = true → O.reMatch p t = true)
+    (opts : DeserOpts) (ign : Bool) (ρ : String → FieldDecl) (s : Schema) (v : PyVal)
+    (hs : exactSchema s = true) (h : jsV R S (scalarDoc true s) v = true) :
+    ∃ y y', deser O opts ign (schemaToDecl ρ s) v = .ok y ∧ validate O (schemaToDecl ρ s) y = .ok y' := by
+  rw [← emit_scalar true ρ s hs] at h
+  exact exact_scalar O R S hS opts ign _ v (exactScalar_of ρ s hs) h
+
+open Typedpy.CodeExact Typedpy.Sch in
+/-- the full statement: the generated field accepts a document iff the schema admits it -/
+def exactness_statement : Prop :=
+  ∀ (s : Schema) (v : PyVal), exactSchema s = true →
+    (acceptsB (schemaToDecl CodeExact.rho0 s) v = true ↔ jsV R0 S0 (scalarDoc true s) v = true)
+
+open Typedpy.CodeExact Typedpy.Sch in
+/-- finding `exact:bool-as-number`, kernel-checked: an integer field accepts JSON `true` -/
+theorem counterexample_bool_as_number :
+    jsV R0 S0 (scalarDoc true (.num true none none none false)) (.bool true) = false ∧
+    acceptsB (schemaToDecl CodeExact.rho0 (.num true none none none false)) (.bool true) = true := by decide
+
+open Typedpy.CodeExact Typedpy.Sch in
+/-- finding `exact:bool-string`: a boolean field accepts the string `'True'` -/
+theorem counterexample_bool_string :
+    jsV R0 S0 (scalarDoc true .bool) (.str "True") = false ∧
+    acceptsB (schemaToDecl CodeExact.rho0 .bool) (.str "True") = true := by decide
+
+open Typedpy.CodeExact Typedpy.Sch in
+/-- finding `exact:short-positional-array`: draft-4 admits an array shorter than the positional
+    `items`, the generated `Array(items=[...])` rejects it -/
+theorem counterexample_short_positional_array :
+    jsV R0 S0 (emit true (schemaToDecl CodeExact.rho0
+        (.arrPos [.num true none none none false, .str none none none] true {}))) (.list [.int 1]) = true ∧
+    acceptsB (schemaToDecl CodeExact.rho0
+        (.arrPos [.num true none none none false, .str none none none] true {})) (.list [.int 1]) = false := by
+  decide
+
+open Typedpy.CodeExact Typedpy.Sch in
+/-- finding `exact:null`: `null` for a non-required property of a nested object is accepted (dropped),
+    the validator rejects it -/
+theorem counterexample_null_optional :
+    jsV R0 S0 (emit true (schemaToDecl CodeExact.rho0
+        (.obj [("b", .num true none none none false), ("t", .num false none none none false)] [] (some ["b"]) true)))
+      (.dict [(.str "b", .int 5), (.str "t", .none)]) = false ∧
+    acceptsB (schemaToDecl CodeExact.rho0
+        (.obj [("b", .num true none none none false), ("t", .num false none none none false)] [] (some ["b"]) true))
+      (.dict [(.str "b", .int 5), (.str "t", .none)]) = true := by
+  decide
+
+open Typedpy.CodeExact Typedpy.Sch in
+/-- finding `exact:accepts-invalid:extra`: with `additionalProperties: false` the Deserializer drops an
+    undeclared top-level key, the validator rejects the document -/
+theorem counterexample_extra_key_dropped :
+    (match deserialize O0 {} (schemaToClass CodeExact.rho0 "Foo"
+        (.obj [("p", .num true none none none false)] [] (some []) false))
+        (.dict [(.str "p", .int 1), (.str "zz", .int 1)]) with | .ok _ => true | .error _ => false) = true ∧
+    jsV R0 S0 (classSchema true (schemaToClass CodeExact.rho0 "Foo"
+        (.obj [("p", .num true none none none false)] [] (some []) false)))
+      (.dict [(.str "p", .int 1), (.str "zz", .int 1)]) = false := by decide
+
+open Typedpy.CodeExact Typedpy.Sch in
+/-- finding `exact:rejects-valid:unique:bool-vs-int`: `[[true], [1]]` is unique for draft 4, not for
+    Python's `==` -/
+theorem counterexample_unique_bool_vs_int :
+    jsV R0 S0 (emit true (schemaToDecl CodeExact.rho0 (.arrAny { uniq := true })))
+      (.list [.list [.bool true], .list [.int 1]]) = true ∧
+    acceptsB (schemaToDecl CodeExact.rho0 (.arrAny { uniq := true }))
+      (.list [.list [.bool true], .list [.int 1]]) = false := by decide
+
+/-- finding `exec:cyclic-ref`: for two definitions that refer to each other no emission order defines
+    every name before its use (the depth-first order emits `B` first, whose body names `A`) -/
+theorem counterexample_cyclic_refs :
+    topoOrder [("A", .obj [("x", .ref "B")] [] (some []) true), ("B", .obj [("y", .ref "A")] [] (some []) true)]
+      = ["B", "A"] ∧
+    refsOrdered [] [("A", .obj [("x", .ref "B")] [] (some []) true), ("B", .obj [("y", .ref "A")] [] (some []) true)]
+      = false ∧
+    refsOrdered [] [("B", .obj [("y", .ref "A")] [] (some []) true), ("A", .obj [("x", .ref "B")] [] (some []) true)]
+      = false := by decide
+
+theorem exactness_statement_false : ¬ exactness_statement := fun h =>
+  absurd ((h (.num true none none none false) (.bool true) (by decide)).1 counterexample_bool_as_number.2)
+    (by rw [counterexample_bool_as_number.1]; decide)
+
+open Typedpy.CodeExact Typedpy.Sch in
+/-- non-vacuity: an integer schema with bounds and multiplesOf admits 6, and the generated field
+    accepts it -/
+theorem admitted_is_accepted_example :
+    exactSchema (.num true (some 3) (some ⟨0, 1⟩) (some ⟨10, 1⟩) true) = true ∧
+    jsV R0 S0 (scalarDoc true (.num true (some 3) (some ⟨0, 1⟩) (some ⟨10, 1⟩) true)) (.int 6) = true ∧
+    acceptsB (schemaToDecl CodeExact.rho0 (.num true (some 3) (some ⟨0, 1⟩) (some ⟨10, 1⟩) true)) (.int 6) = true ∧
+    jsV R0 S0 (scalarDoc true (.num true (some 3) (some ⟨0, 1⟩) (some ⟨10, 1⟩) true)) (.int 10) = false := by
+  decide
 
 /-! ## non-vacuity -/
 
